@@ -75,6 +75,24 @@ impl Elem for ElemStack {
     }
 }
 
+/// Elements that can match without consuming (only used under an upper bound, where repeating an
+/// empty match is finite: the statement's "stops at MAX" then decides the count).
+pub struct ElemOpt;
+impl Elem for ElemOpt {
+    type Node<'i> = Option<Str<X>>;
+    fn model(s: &str, pos: usize) -> Option<usize> {
+        Some(if s[pos..].starts_with('x') { pos + 1 } else { pos })
+    }
+}
+pub struct ElemRep02;
+impl Elem for ElemRep02 {
+    /// zero to two `x`, greedy
+    type Node<'i> = RepMinMax<Str<X>, Ign<'i>, 0, 0, 2>;
+    fn model(s: &str, pos: usize) -> Option<usize> {
+        Some(pos + s[pos..].bytes().take_while(|b| *b == b'x').count().min(2))
+    }
+}
+
 fn skip_ws(s: &str, pos: usize) -> usize {
     pos + s[pos..].bytes().take_while(|b| *b == b' ').count()
 }
